@@ -1,6 +1,7 @@
 CONSTANTS
   Sits <- AllSits
   PairsFor <- PairsT
+  PairFields <- FieldsT
   ExtraSets <- Extras
 INIT Init
 NEXT Next
